@@ -262,7 +262,7 @@ pub fn main(args: Args) -> i32 {
     }
     // single-template programs: the depth-1 space completely, the depth-2 space by stride
     let mut subjects: Vec<Subject> = vec![];
-    let g1 = gen::Gen::new(gen::Opts { depth: 1, max_programs: u64::MAX, multi_template: false, loop_controls: true });
+    let g1 = gen::Gen::new(gen::Opts { depth: 1, max_programs: u64::MAX, multi_template: false, loop_controls: true, extra_leaves: false });
     for n in 0..g1.size() {
         subjects.push(Subject { name: format!("d1#{}:single", n), templates: vec![("main".into(), format!("{{{{ probe() }}}}{}{{{{ probe() }}}}", g1.program(n).source()))], main: "main".into() });
     }
@@ -271,7 +271,7 @@ pub fn main(args: Args) -> i32 {
         subjects.push(Subject { name: format!("d1#{}:failing", n), templates: vec![("main".into(), format!("{}{{{{ x // 0 }}}}tail", g1.program(n).source()))], main: "main".into() });
         subjects.push(Subject { name: format!("d1#{}:failing_in_include", n), templates: vec![("main".into(), "a{% include 'inc' %}b".into()), ("inc".into(), format!("{}{{{{ [] | first | int // 0 }}}}", g1.program(n).source()))], main: "main".into() });
     }
-    let g2 = gen::Gen::new(gen::Opts { depth: 2, max_programs: u64::MAX, multi_template: false, loop_controls: true });
+    let g2 = gen::Gen::new(gen::Opts { depth: 2, max_programs: u64::MAX, multi_template: false, loop_controls: true, extra_leaves: false });
     let stride2 = args.tier.pick(97u64, 1u64);
     let mut n = 0;
     while n < g2.size() {
